@@ -47,6 +47,19 @@ func GenC14(r *RNG) *SrvPlan {
 		}
 		p.Lanes = append(p.Lanes, l)
 	}
+	if r.Intn(4) == 0 {
+		// a graceful end in mid-upload: once every upload has begun the peer opens a stream on an id it had left out
+		// below them. The server says GOAWAY and serves what it has promised to the end (RFC 7540 6.8) - and the uploads
+		// left standing still need their credit
+		p.Lanes[0].SkipID = true
+		ol := Lane{Name: "offence-headers-lower-id", Offender: "headers-lower-id", After: -1}
+		for i := 0; i < n; i++ {
+			ol.Ops = append(ol.Ops, Op{Kind: "wait-open", Len: i, Pad: -1, TableSize: -1})
+		}
+		ol.Ops = append(ol.Ops, Op{Kind: "headers", Fields: okHeaders, StreamRef: -2, EndStream: true, Pad: -1, TableSize: -1})
+		p.Lanes = append(p.Lanes, ol)
+		p.Trail = "graceful"
+	}
 	p.GateMode = Pick(r, "sched", "open")
 	p.Mask = []string{"atomic", "prelock", "net", "yield"}
 	p.PoolPol = r.Intn(2)
@@ -177,7 +190,9 @@ func c14Final(w *SrvWorld) *Violation {
 		}
 		if len(w.GoAways) > 0 {
 			g := w.GoAways[0]
-			return &Violation{Property: "C14", Rule: "goaway", Sig: fmt.Sprintf("goaway/code=%d", g.Code), Detail: fmt.Sprintf("GOAWAY(code=%d, %.80q) during conforming uploads", g.Code, g.Debug)}
+			if w.plan.Trail != "graceful" || (g.Code != 1 && g.Code != 5) || g.LastStream < l.id {
+				return &Violation{Property: "C14", Rule: "goaway", Sig: fmt.Sprintf("goaway/code=%d", g.Code), Detail: fmt.Sprintf("GOAWAY(last=%d, code=%d, %.80q) during conforming uploads", g.LastStream, g.Code, g.Debug)}
+			}
 		}
 		if !l.sentAll {
 			which := "stream"
